@@ -87,6 +87,7 @@ func NewBlankState() *State {
 func (s *State) Reset() {
 	s.env = s.rootEnv
 	s.depth = 0
+	s.PipeVal = nil // a panic in the right hand side of "text" | f() skipped evalPipe's own reset.
 }
 
 // RegisterTrie sets up the Trie to record all top level ids and functions.
